@@ -11,8 +11,8 @@ theorem CkptGood.congr {fs fs' : FS} {prev} (h : CkptGood fs prev)
   unfold CkptGood at *
   rw [hb, ho]; exact h
 
-theorem version_specOf (prev : Option (Nat × Nat)) :
-    (specOf prev).version = some (prev.map Prod.fst) := by
+theorem version_specOf (kind : Kind) (cfg : ResumeCfg) (fs : FS) (prev : Option (Nat × Nat)) :
+    (specOf kind cfg fs prev).version = some (prev.map Prod.fst) := by
   cases prev with
   | none => rfl
   | some vn => rfl
@@ -48,15 +48,15 @@ theorem std_hist_safe (P : Protocol) (hd : DumpSpec P.dump) (hr : ResumeSpec P.c
     | ckpt se v n len cp =>
       cases cp with
       | none =>
-        refine ⟨some (v, n), ⟨?_, ?_⟩, allowed_ckpt_done _ _ _ _ _⟩
-        · exact dump_run_good hd se ⟨v, n, len, .tornPickle⟩ s.fs hg.1 hg.2.1
+        refine ⟨some (v, s.mem), ⟨?_, ?_⟩, allowed_ckpt_done _ _ _ _ _⟩
+        · exact dump_run_good hd se ⟨v, s.mem, len, .tornPickle⟩ s.fs hg.1 hg.2.1
         · exact hQframe _ _ (fun p hp => runProg_frame _ _ _ _ _ hp) hq
       | some cp =>
-        have hq' : Q (crashState (P.dump se) .ckpt ⟨v, n, len, .tornPickle⟩ s.fs cp) :=
+        have hq' : Q (crashState (P.dump se) .ckpt ⟨v, s.mem, len, .tornPickle⟩ s.fs cp) :=
           hQframe _ _ (fun p hp => crashState_frame _ _ _ _ _ _ hp) hq
-        rcases dump_crash_good hd se ⟨v, n, len, .tornPickle⟩ s.fs cp prev hg with h | h
+        rcases dump_crash_good hd se ⟨v, s.mem, len, .tornPickle⟩ s.fs cp prev hg with h | h
         · exact ⟨prev, ⟨h, hq'⟩, (allowed_ckpt_crash acc se v n len cp prev hm).1⟩
-        · exact ⟨some (v, n), ⟨h, hq'⟩, (allowed_ckpt_crash acc se v n len cp prev hm).2⟩
+        · exact ⟨some (v, s.mem), ⟨h, hq'⟩, (allowed_ckpt_crash acc se v s.mem len cp prev hm).2⟩
     | train w len e cp =>
       refine ⟨prev, ⟨?_, ?_⟩, by rw [allowed_train]; exact hm⟩
       · cases cp with
@@ -85,21 +85,21 @@ structure InsInv (s : Sys) (prev : Option (Nat × Nat)) : Prop where
   lev : LevelsDone s.fs s.mem
   top : s.mem ≤ s.top
 
-theorem memAfter_specOf_le {fs : FS} {prev m} (hg : CkptGood fs prev) (hp : PicklesLe fs m) :
-    memAfter (specOf prev) ≤ m := by
+theorem memAfter_specOf_le {cfg : ResumeCfg} {fs : FS} {prev m} (hg : CkptGood fs prev) (hp : PicklesLe fs m) :
+    memAfter (specOf .ins cfg fs prev) ≤ m := by
   cases prev with
   | none => simp [specOf, memAfter]
   | some vn =>
     obtain ⟨v, n⟩ := vn
-    simp only [specOf, memAfter]
+    simp only [specOf, memAfter, weightsBack]
     rcases hg.2.2 with h | ⟨_, h⟩
     · exact hp cb v n (Or.inl rfl) h
     · exact hp co v n (Or.inr rfl) h
 
 /-- after a restart the in-memory level count is what the loaded checkpoint records, and
 no checkpoint on disk records more -/
-theorem picklesLe_after {fs : FS} {prev} (hg : CkptGood fs prev) (ho : OldLeBase fs) :
-    PicklesLe fs (memAfter (specOf prev)) := by
+theorem picklesLe_after {cfg : ResumeCfg} {fs : FS} {prev} (hg : CkptGood fs prev) (ho : OldLeBase fs) :
+    PicklesLe fs (memAfter (specOf .ins cfg fs prev)) := by
   intro p v n hp hv
   cases prev with
   | none =>
@@ -109,7 +109,7 @@ theorem picklesLe_after {fs : FS} {prev} (hg : CkptGood fs prev) (ho : OldLeBase
     · rw [hc] at hv; cases hv
   | some vn =>
     obtain ⟨v0, n0⟩ := vn
-    simp only [specOf, memAfter]
+    simp only [specOf, memAfter, weightsBack]
     rcases hg.2.2 with h | ⟨hab, h⟩
     · rcases hp with rfl | rfl
       · rw [h] at hv; cases hv; exact Nat.le_refl _
@@ -120,7 +120,7 @@ theorem picklesLe_after {fs : FS} {prev} (hg : CkptGood fs prev) (ho : OldLeBase
 
 theorem ins_resume_ok {P : Protocol} (hr : ResumeSpec P.cfg) {fs : FS} {prev} {m top : Nat}
     (hg : CkptGood fs prev) (hp : PicklesLe fs m) (hl : LevelsDone fs m) (ht : m ≤ top) :
-    resume .ins P.cfg top fs = specOf prev :=
+    resume .ins P.cfg top fs = specOf .ins P.cfg fs prev :=
   hr .ins top fs prev hg (fun p v n hpp hv => ins_ok fs top m n (hp p v n hpp hv) ht hl)
 
 theorem ins_hist_safe (P : Protocol) (hd : DumpSpec P.dump) (hs : SaveSpec P.saveWeights)
@@ -183,11 +183,11 @@ theorem ins_hist_safe (P : Protocol) (hd : DumpSpec P.dump) (hs : SaveSpec P.sav
             InsInv (step .ins P s (.ckpt se v n len (some cp))) prev' := by
           intro prev' hg
           have hres := ins_resume_ok hr hg hple hlev hi.top
-          have hle := memAfter_specOf_le hg hple
+          have hle := memAfter_specOf_le (cfg := P.cfg) hg hple
           simp only [step, ckptN]
           rw [hres]
           exact ⟨hg, picklesLe_after hg hole, hole, fun i hi' => hlev i (by dsimp only at hi'; omega), by
-            show memAfter (specOf prev') ≤ s.top
+            show memAfter (specOf .ins P.cfg _ prev') ≤ s.top
             have := hi.top; omega⟩
         rcases dump_crash_good hd se ⟨v, s.mem, len, .tornPickle⟩ s.fs cp prev hi.good with h | h
         · exact ⟨prev, fin prev h, (allowed_ckpt_crash acc se v n len cp prev hm).1⟩
@@ -198,7 +198,7 @@ theorem ins_hist_safe (P : Protocol) (hd : DumpSpec P.dump) (hs : SaveSpec P.sav
       | none =>
         have hb := runProg_frame P.saveWeights (.level s.mem) ⟨w, 0, len, e⟩ s.fs cb (by simp)
         have ho := runProg_frame P.saveWeights (.level s.mem) ⟨w, 0, len, e⟩ s.fs co (by simp)
-        simp only [step, trainFam, trainTop]
+        simp only [step, trainFam, trainTop, trainMem]
         refine ⟨hi.good.congr hb ho, ?_, ?_, ?_, ?_⟩
         · intro p v n hp hv
           dsimp only at hv
@@ -240,11 +240,11 @@ theorem ins_hist_safe (P : Protocol) (hd : DumpSpec P.dump) (hs : SaveSpec P.sav
           rw [crashState_frame _ _ _ _ _ _ (by simp; omega)]; exact hv
         have htop : s.mem ≤ max s.top (s.mem + 1) := by omega
         have hres := ins_resume_ok hr hg hple hlev htop
-        have hle := memAfter_specOf_le hg hple
+        have hle := memAfter_specOf_le (cfg := P.cfg) hg hple
         simp only [step, trainFam, trainTop]
         rw [hres]
         exact ⟨hg, picklesLe_after hg hole, hole, fun i hi' => hlev i (by dsimp only at hi'; omega), by
-          show memAfter (specOf prev) ≤ max s.top (s.mem + 1)
+          show memAfter (specOf .ins P.cfg _ prev) ≤ max s.top (s.mem + 1)
           omega⟩
 
 end NessaiVerif.CrashFS
